@@ -26,6 +26,9 @@ def scenario(seed):
     for _ in range(r.randint(1, 3)):
         steps.append({"k": "append", "topic": "ping", "ctx": r.choice([ctx, ctx, 0]), "meta": None, "content": None, "ttl": None})
         steps.append({"k": "sleep", "ms": pulse * r.randint(1, 3)})
+    # the instance is stopped before the run is closed: no marker reaches a stopped instance (and the stream falls silent)
+    steps.append({"k": "unregister", "name": "p", "ctx": ctx})
+    steps.append({"k": "sleep", "ms": pulse * 3})
     steps.append({"k": "settle"})
     return {"name": "pulse-%d" % seed, "nctx": nctx, "steps": steps, "pulse": pulse, "ctx": ctx}
 
@@ -70,7 +73,8 @@ def analyse(sc, res, drv):
         if any(t is None for t in trig_hex) or len(set(pulses)) != len(pulses) or [int(x, 16) for x in pulses] != sorted(int(x, 16) for x in pulses):
             fnd.append({"why": "pulse markers not distinct / not in increasing id order"})
         # the stored frames it was invoked for: every frame of its context after the subscription that a rule answers, once, in order
-        want_stored = [f["id"] for f in tap[pos + 1:] if f["ctx"] == ctx_hex and L.unhx(f["topic"]) in ("ping", "xs.barrier")]
+        stop = next((j for j, f in enumerate(tap) if f["ctx"] == ctx_hex and L.unhx(f["topic"]) == "p.unregister"), len(tap))
+        want_stored = [f["id"] for f in tap[pos + 1:stop + 1] if f["ctx"] == ctx_hex and L.unhx(f["topic"]) in ("ping", "xs.barrier", "p.unregister")]
         got_stored = [t for t in trig_hex if t in stored_ids]
         if got_stored != want_stored:
             fnd.append({"why": "stored frames the handler was invoked for differ from the frames of its context after it subscribed",
